@@ -30,7 +30,16 @@ RULE = (
     'one batch, row by row, reversed, one accumulator per batch merged); rankings that '
     'repeat an id (third audit round: a relevant or an irrelevant id, 1-3 copies next to the '
     'first occurrence, further down or in front of it, in one or several rows; about 12% of '
-    'the retrieval cases). A mismatch is keyed (mechanism) by the input class of the '
+    'the retrieval cases); fourth audit round, drawn from a side stream so that the other '
+    'cases stay as they were: thresholded-retrieval rankings that repeat an id (22% of the thr '
+    'cases: 1-3 extra copies of a relevant or irrelevant id in one or several rows, at any '
+    'position, each copy with its own probability or that of the first occurrence), every thr '
+    'case is also re-run with each row reversed / rotated (order twin); rolling_stats '
+    'accumulators with a NON-DEFAULT configuration through the one-shot call, add()+result(), '
+    'as_agg_fn()(batch) and a merge of per-batch accumulators (15% of the stats cases): '
+    'ValueAccumulator (concat_fn None / list / array concat; metric_fns None / a callable / a '
+    'dict of callables; 1-2 inputs; 1-4 batches) and Mean / MeanAndVariance / Var with an '
+    'element-wise batch_score_fn. A mismatch is keyed (mechanism) by the input class of the '
     'case and the position / metric it concerns, never by the value returned. '
     'Cases are drawn from random.Random(f(seed, chunk, index)). '
     'All ~30 derived rates / 17 ranking metrics are compared per case. Non-trivial = at '
@@ -87,6 +96,28 @@ ASSUMPTIONS = [
     'float32), but the same comparison must decide "predicted positive" and "true positive"; '
     'metric@t only at listed thresholds, within 2e-6 when a threshold is not a float32 '
     '(interpolation on the float32 threshold axis); reported thresholds within rtol 1e-7',
+    'thresholded retrieval with a repeated id: set semantics - an id is retrieved at t when '
+    'ANY of its occurrences has prob > t (its highest probability counts) and is one hit; '
+    'recall = retrieved true ids / true ids. The precision denominator is accepted under two '
+    'readings, distinct ids above t or positions above t (what TopKRetrieval does with '
+    'precision@k); f1 from either. Keys by input class, per threshold t: recall / f1 where '
+    'some ranking repeats a relevant id whose LAST occurrence is not above t while another one '
+    'is -> thresholded-retrieval-repeated-prediction-last-probability-wins; precision / f1 '
+    'where a relevant id sits at >= 2 positions above t (one hit or several: a convention, '
+    'order-independent) -> thresholded-retrieval-repeated-prediction-value-convention. Order '
+    'twin: the same (id, prob) pairs of every row in another order must give the same values '
+    '(not debatable); a difference at a threshold that the occurrences of a repeated relevant '
+    'id straddle is keyed last-probability-wins, any other difference has no key',
+    'ValueAccumulator: the definition is "the i-th input of every add() is kept in order, '
+    'joined by concat_fn (list + / np.concatenate) or, without concat_fn, as the list of the '
+    'batches; result = metric_fns(*sequences), a dict of callables gives a dict, no metric '
+    'gives the sequences (a single input unwrapped)"; small ints (exact); metric functions '
+    'are plain python (sum, len, max, mean, dot, ...); a mismatch of the one-shot call of an '
+    'accumulator that was given metric_fns is keyed '
+    'value-accumulator-one-shot-call-drops-configuration (configuration + API path, not the '
+    'value), every other path / configuration has no key; batch_score_fn of Mean / '
+    'MeanAndVariance / Var is abs, negation or halving (exact in floats): the statistics of '
+    'the scored values',
     'Mean / MeanAndVariance / Var batches are non-empty; |values| <= 1.1e8; NaN is the only '
     'non-finite value outside the statsinf family; float64 arrays, or int32 / int64 arrays without NaN; tolerance atol = '
     '1e-12 x scale with scale = max|x| (mean, total), spread^2 + 2e-3 max|x| spread (var: ~9 '
@@ -163,6 +194,11 @@ REQUIRED = [
     'stats_inf_cases', 'stats_inf_batching_checks',
     'retr_repeated_id_cases', 'retr_repeated_relevant_id_cases',
     'retr_repeated_irrelevant_id_cases', 'retr_range_checks',
+    # fourth audit round
+    'thr_repeated_id_cases', 'thr_repeated_relevant_id_cases',
+    'thr_repeated_straddling_threshold_cases', 'thr_order_twin_checks',
+    'stats_valueacc_cases', 'stats_valueacc_metric_fns_cases',
+    'stats_one_shot_call_checks', 'stats_configured_mean_cases',
 ]
 EXHAUSTIVE = {'quick': False, 'thorough': False}
 CHUNK_TIMEOUT_S = {'quick': 240, 'thorough': 3000}
@@ -205,7 +241,8 @@ def _dispatch(ctx, case):
     sub = case['sub']
     fn = {'mean': s.check_meanvar, 'meanvar': s.check_meanvar, 'var': s.check_meanvar,
           'minmax': s.check_minmax, 'hist': s.check_histogram,
-          'counter': s.check_counter, 'calib': s.check_calibration}[sub]
+          'counter': s.check_counter, 'calib': s.check_calibration,
+          'valueacc': s.check_valueacc}[sub]
     return fn(ctx, case)
   if fam == 'misc':
     from vlib.oracles import c07_check_misc as m
